@@ -189,5 +189,67 @@ pub fn xml_jobs(ctx: &Ctx, prop: Prop, stats: &Stats) -> u64 {
             }
         }
     });
+    if prop == Prop::C04 {
+        count.fetch_add(xml_numeric_sweep(ctx, stats), Ordering::Relaxed);
+    }
     count.load(Ordering::Relaxed)
+}
+
+/// xml5ever: every numeric character reference value 0..=0x110100 in decimal and hex, plus values
+/// around the u32 / u64 wrap-around points and long digit strings, in text and in an attribute
+/// value, terminated by ';', by another character and by end of input: no panic, one EOF
+pub fn xml_numeric_sweep(ctx: &Ctx, stats: &Stats) -> u64 {
+    use crate::xmlh::*;
+    let mut bodies: Vec<String> = vec![];
+    for v in 0u64..=0x11_0100 {
+        bodies.push(format!("#{v}"));
+        bodies.push(format!("#x{v:x}"));
+    }
+    for base in [1u128 << 31, 1u128 << 32, 10 * (1u128 << 32), 16 * (1u128 << 32), 1u128 << 63, 1u128 << 64, 0x11_0000u128 * 10, 0x11_0000u128 * 16] {
+        for k in 0..=0x120u128 {
+            for v in [base + k, base.saturating_sub(k)] {
+                bodies.push(format!("#{v}"));
+                bodies.push(format!("#x{v:x}"));
+                bodies.push(format!("#X{v:X}"));
+            }
+        }
+    }
+    for digits in 1..=40usize {
+        for d in ["0", "1", "9", "f", "F"] {
+            bodies.push(format!("#{}", d.repeat(digits)));
+            bodies.push(format!("#x{}", d.repeat(digits)));
+            bodies.push(format!("#0000000{}", d.repeat(digits)));
+        }
+    }
+    let full = ctx.tier == Tier::Thorough;
+    let n = std::sync::atomic::AtomicU64::new(0);
+    bodies.par_iter().enumerate().for_each(|(idx, b)| {
+        // all shapes for the interesting values; the bulk of the range in the two main shapes
+        let interesting = full || idx % 64 == 0 || b.len() > 8 || {
+            let v = if let Some(h) = b.strip_prefix("#x") { u64::from_str_radix(h, 16).unwrap_or(0) } else { b[1..].parse::<u64>().unwrap_or(0) };
+            v < 0x200 || (0xD7F0..=0xE010).contains(&v) || (0xFDC0..=0xFE00).contains(&v) || v & 0xFFFF >= 0xFFF0 || v >= 0x10_FF00
+        };
+        let shapes: Vec<String> = if interesting {
+            vec![format!("<a>&{b};</a>"), format!("<a>&{b}"), format!("<a>&{b}z</a>"), format!("<a b='&{b};'/>"), format!("<a b=\"&{b}\" c='&{b}'/>"), format!("<a b=&{b}>")]
+        } else {
+            vec![format!("<a>&{b};</a>"), format!("<a b='&{b}'/>")]
+        };
+        for doc in shapes {
+            let sched = vec![Feed::Chunk(doc)];
+            let cfg = XmlCfg::default();
+            n.fetch_add(1, Ordering::Relaxed);
+            stats.execs.fetch_add(1, Ordering::Relaxed);
+            match guarded(|| run_xml_tokens(&cfg, &sched, true, false)) {
+                Err(p) => {
+                    ctx.violation("panic", &crate::c15::witness(&cfg, &sched), json!({"panic": p, "job": "xml-numeric"}));
+                },
+                Ok(t) => {
+                    if let Some(p) = t.problems.first() {
+                        ctx.violation("totality", &crate::c15::witness(&cfg, &sched), json!({"message": p, "job": "xml-numeric"}));
+                    }
+                },
+            }
+        }
+    });
+    n.load(Ordering::Relaxed)
 }
